@@ -34,6 +34,13 @@ def generate(rng, tier, shard, nshards):
         if i % 3 == 0:        # the caller reuses one character-set object for several patterns
             args["warm"] = [rops.rand_re(rng, pool) for _ in range(rng.randint(1, 2))]
             ft = ft + "+charset-reused"
+        if i % 3 == 1:       # one long string, too: weights far below 1e-8 are still weights
+            args["long"] = rng.choice([25, 40])
+            args["spoil"] = rng.random() < 0.3
+        if i % 4 == 2:       # the automaton is an operand of other constructions (closures, sums, byte conversion) first
+            args["used"] = [rng.choice(["kleene_plus", "star", "add", "mul", "min", "epsremove", "to_bytes"])
+                            for _ in range(rng.randint(1, 2))]
+            ft = ft + "+used-as-operand"
         yield rops.event("regex", args, site="interegular_to_wfsa", feat=ft)
     if shard == 0:
         for pat_re, cs in [({"t": "ci", "e": {"t": "lit", "c": "ß"}}, ["ß", "s", "S"]),
